@@ -873,7 +873,7 @@ pub fn oracle_sha256tree(rng: &mut Rng, n: usize, _tier: &str) -> OracleReport {
             // large atoms (alone and inside a tree): the per-byte rates of the two programs differ, the
             // fixed margin of the Chialisp program must not be what keeps the native operator cheaper
             3..=12 => {
-                let len = [63usize, 64, 1000, 1300, 3100, 4096, 65536, 1 << 20, 200, 5000][i - 3];
+                let len = [63usize, 64, 1000, 1300, 3100, 4096, 65536, 1 << 20, (1 << 20) + 1, (2 << 20) + 5][i - 3];
                 let big = T::Atom(rng.bytes(len));
                 if i % 2 == 0 { big } else { T::pair(big.clone(), T::pair(T::Atom(vec![7]), big)) }
             }
